@@ -497,6 +497,14 @@ where
                     h.stat(&format!("C10.shape.{}", nm));
                     h.expect(!o.is_panic() && !o.is_ok(), "C10.bad_shape", &format!("proof_verify accepted a disclosed-message list that does not match the index list ({})", nm), &[h.last()]);
                 }
+                // a disclosed position listed twice by the verifier (ascending, one message per distinct position): the
+                // same set, the same decision as for the plain list
+                if !d.is_empty() {
+                    let mut dd = d.clone();
+                    dd.insert(0, d[0]);
+                    let o = proofverify::<CS>(h, &pk, &p, hdr.as_deref(), ph.as_deref(), Some(&dm), Some(&dd));
+                    h.expect(o.is_ok(), "C10.repeated_index", "proof_verify refused an honest proof because a disclosed position was listed twice", &[h.last()]);
+                }
                 // a plain proof shown to the blind verifier with the optional arguments left out
                 let o = blindproofverify::<CS>(h, &pk, &p, hdr.as_deref(), ph.as_deref(), None, Some(&dm), None, Some(&d), None);
                 h.expect(!o.is_panic() && !o.is_ok(), "C10.plain_proof_blind_verifier_defaults", "blind_proof_verify with L and the committed lists omitted accepted a plain proof", &[h.last()]);
